@@ -116,7 +116,8 @@ fn main() -> ExitCode {
                 return ExitCode::from(2);
             }
 
-            let config_path = args[1].to_ascii_lowercase();
+            // the path as given: lower-casing it loses every file whose path has a capital letter
+            let config_path = args[1].clone();
             config = match Config::from(PathBuf::from(&config_path)) {
                 Ok(cnf) => cnf,
                 Err(err) => {
